@@ -89,8 +89,8 @@ class Prop(BaseProp):
         ctx.expect(d is None, "filter:kept-differs-without-removed-flag", "kept trains differ between return_removed_spikes False/True: %s" % d)
         Fthr = F(thr)
         for n in range(N):
-            ks = kept[n].spikes.tolist()
-            rs = removed[n].spikes.tolist()
+            ks = common.tl(kept[n].spikes)
+            rs = common.tl(removed[n].spikes)
             ctx.count("removed_checked")
             ctx.expect(kept[n].t_start == ts and kept[n].t_end == te and removed[n].t_start == ts and removed[n].t_end == te,
                        "filter:edges", "train %d: edges changed" % n)
@@ -126,14 +126,14 @@ class Prop(BaseProp):
                                "multivariate profile at spike %r of train %d shows y=%r mp=%r, pairwise count c=%d of N-1=%d" % (t, n, mp.y[kx], mp.mp[kx], c[n][q], N - 1))
                     val = mp.y[kx] / mp.mp[kx]
                     if (val > thr) == (F(c[n][q], N - 1) > Fthr):
-                        ctx.expect((t in kept[n].spikes.tolist()) == (val > thr), "filter:kept-vs-profile-value",
-                                   "spike %r of train %d: multivariate profile value %r, threshold %r, kept=%r" % (t, n, val, thr, t in kept[n].spikes.tolist()))
+                        ctx.expect((t in common.tl(kept[n].spikes)) == (val > thr), "filter:kept-vs-profile-value",
+                                   "spike %r of train %d: multivariate profile value %r, threshold %r, kept=%r" % (t, n, val, thr, t in common.tl(kept[n].spikes)))
         # ---- a higher threshold never keeps more
         ctx.count("monotone_checked")
         k2 = ctx.call(ps.filter_by_spike_sync, sts, case["thr2"], **kw)
         for n in range(N):
-            ctx.expect(set(k2[n].spikes.tolist()) <= set(kept[n].spikes.tolist()), "filter:not-monotone",
-                       "train %d: threshold %r keeps %s but the lower threshold %r keeps %s" % (n, case["thr2"], common.short(k2[n].spikes.tolist()), thr, common.short(kept[n].spikes.tolist())))
+            ctx.expect(set(common.tl(k2[n].spikes)) <= set(common.tl(kept[n].spikes)), "filter:not-monotone",
+                       "train %d: threshold %r keeps %s but the lower threshold %r keeps %s" % (n, case["thr2"], common.short(common.tl(k2[n].spikes)), thr, common.short(common.tl(kept[n].spikes))))
 
 
 PROP = Prop()
